@@ -22,7 +22,7 @@ TRUSTED_EXTRA = ["Python implementation of the WGSL layout rules (lib/structgen.
 
 
 def cases(rng, tier):
-    out = structcases.cases(rng, tier)
+    out = structcases.cases(rng, tier, huge_arrays=True)
     # structs whose Rust layout equals the WGSL layout (16-byte-multiple leafs): these modules COMPILE with the
     # assertions in them, so the end-to-end clause (compiled => rustc's offsets / sizes = WGSL's) is exercised
     extra = structcases.cases(rng, "quick", nbase={"quick": 14, "search": 20, "thorough": 60}[tier], compat16=True, allow_rts=False)
